@@ -253,14 +253,27 @@ def run_impl(case):
             sex = opt.get("sex", "female" if i["female"] else "male")
             if sex is not None:
                 argv += [opt.get("sex_flag", "-x"), sex]
-            if purity is not None:
+            if purity is not None and case.get("op") == "cmd_call":
+                argv.append("--purity=" + repr(float(purity)))   # also negative / exponent spellings
+            elif purity is not None:
                 argv += ["--purity", repr(float(purity))]
             if i["hapX"]:
                 argv.append(opt.get("hapx_flag", "-y"))
             if i["par"]:
                 argv += ["--diploid-parx-genome", i.get("par_f", i["par"])]
+            if opt.get("center_at") is not None:
+                argv.append("--center-at=" + repr(float(opt["center_at"])))
+            if opt.get("center"):
+                argv += ["--center", opt["center"]]
             args = commands.parse_args(argv)
-            args.func(args)
+            if case.get("op") == "cmd_call":
+                # the glue op models the refusals of `_cmd_call` itself
+                try:
+                    args.func(args)
+                except RuntimeError as exc:
+                    return {"cli_error": "RuntimeError", "msg": str(exc)[:200], "wrote": os.path.exists(fout)}
+            else:
+                args.func(args)
             rr = read_cna(fin).data
             reread = [[str(r.chromosome), int(r.start), int(r.end), float(r.log2),
                        (None if not i["has_baf"] or r.baf != r.baf else float(r.baf))] for r in rr.itertuples()]
@@ -374,3 +387,25 @@ def shrink(case):
                 c["in"][key] = i[key][:k] + i[key][k + 1:]
         if c["in"]["rows"]:
             yield c
+
+
+OTHER_AUTOSOME_NAMES = ["M", "MT", "Un_gl000220", "6_apd_hap1", "1_gl000191_random", "EBV", "23", "x1", "Yp"]
+
+
+def other_names(rng, case, share=0.4):
+    """autosome-class rows under names that are not 1..22 (mitochondrion, unplaced / random contigs, alternate haplotypes,
+    names that merely contain an x or a y): every one of them carries `ploidy` copies in the reference on every path.
+    Row 0 keeps its name (it fixes the naming style)."""
+    i = case["in"]
+    rows = i["rows"]
+    pre = "chr" if rows and rows[0][0].startswith("chr") else ""
+    hit = False
+    for k in range(1, len(rows)):
+        c = rows[k][0]
+        core = c[3:] if c.startswith("chr") else c
+        if core.isdigit() and rng.random() < share:
+            rows[k] = [pre + rng.choice(OTHER_AUTOSOME_NAMES)] + list(rows[k][1:])
+            hit = True
+    if hit:
+        case["tag"] += "+othernames"
+    return case
